@@ -182,7 +182,7 @@ def gen_c01(tier, seed):
             # an interrupted poll/waitpid inside wait must not lose the status for later calls
             fn = r.choice(["waitpid", "poll", "poll"])
             m["fault"] = (fn, r.randrange(3) if fn == "poll" else 0)
-            fault = "F 0 %s %d 4 ; " % m["fault"]
+            fault = "FR %s %d 4 ; " % m["fault"]   # armed after start: counted from there
             ops.append("W 0 %d" % r.choice([0, 20]))
             if m["exit_at"] is not None:
                 ops.append("Z 130")
@@ -201,8 +201,8 @@ def gen_c01(tier, seed):
             daemon = "E 0 %d C 99 ; " % m["drops_fds_at"]
             ops.insert(r.randrange(len(ops) + 1), "Z %d" % (m["drops_fds_at"] + 2))
             ops.append("W 0 %d" % r.choice([0, 0, 20]))
-        script = "%sN 0 ; S 0 %s dl=%d stop=3:-1:0:0:0:0 ; %s%s%s ; D 0" % (
-            fault, child_tokens(m), dl, daemon if m.get("exit_at") is None or m.get("drops_fds_at", 999) < m["exit_at"] else "",
+        script = "N 0 ; S 0 %s dl=%d stop=3:-1:0:0:0:0 ; %s%s%s%s ; D 0" % (
+            child_tokens(m), dl, fault, daemon if m.get("exit_at") is None or m.get("drops_fds_at", 999) < m["exit_at"] else "",
             child_event(m), " ; ".join(ops))
         sig = "c01/%s/%s/%s" % (kind, m.get("exit_code", m.get("raise_sig", "-")) if i < 300 else "r",
                                  "".join(o.split()[0][0] + o.split()[-1][-1] for o in ops))
@@ -259,12 +259,13 @@ def gen_c07(tier, seed):
         m.update({"dl": dl, "state": state, "acts": acts, "pre": pre})
         if state == "running" and (m["exit_at"] is None or m["exit_at"] > sleep) and r.random() < 0.05:
             m["kill_fail"] = (r.randrange(2), 1)  # k-th kill() fails with EPERM
-        fault = ("F 0 kill %d 1 ; " % m["kill_fail"][0]) if "kill_fail" in m else ""
+        fault = ("FR kill %d 1 ; " % m["kill_fail"][0]) if "kill_fail" in m else ""
         if state == "running" and "kill_fail" not in m and r.random() < 0.08:
             m["intr"] = r.choice([5, 15, 35])
-            fault = "F 0 poll 0 %d ; " % (40000 + m["intr"])
-        script = "%sN 0 ; S 0 %s dl=%d stop=3:-1:0:0:0:0 ; %s%s%sST 0 %s ; D 0" % (
-            fault, child_tokens(m), dl, child_event(m), " ; ".join(pre), " ; " if pre else "", stop_args(acts))
+            fault = "FR poll 0 %d ; " % (40000 + m["intr"])
+        # faults are armed right before the stop request and counted from there
+        script = "N 0 ; S 0 %s dl=%d stop=3:-1:0:0:0:0 ; %s%s%s%sST 0 %s ; D 0" % (
+            child_tokens(m), dl, child_event(m), " ; ".join(pre), " ; " if pre else "", fault, stop_args(acts))
         sig = "c07/%s/%s/%s/%s/%s/%s" % (fmt_stop(acts), m["exit_at"], m["term"], m["skill"], dl, state)
         cases.append(Case("c07-%d" % idx, script, m, sig))
     return cases
